@@ -29,9 +29,12 @@ def _vec(draw, dim, lim=16, den=8.0, nonzero=True):
 @st.composite
 def _ray_cases(draw, tier):
     dim = draw(st.sampled_from([2, 3]))
-    kind = draw(st.sampled_from(["cross", "cross", "grid", "parallel", "coincident", "skew"]))
+    kind = draw(st.sampled_from(["cross", "cross", "grid", "parallel", "coincident", "skew", "nearmiss"]))
     c = {"dim": dim, "kind": kind}
-    if kind == "cross":
+    if kind == "nearmiss":
+        c["dim"] = dim = 3
+        c["gap"] = draw(st.sampled_from([2.0 ** -30, 2.0 ** -24, 2.0 ** -20]))
+    if kind in ("cross", "nearmiss"):
         c["X"] = draw(_vec(dim, 64, 8.0, nonzero=False))
         c["d1"] = draw(_vec(dim))
         c["d2"] = draw(_vec(dim))
@@ -61,10 +64,16 @@ def check_rays(case, ctx):
         d1[0] = F(1)
     if not any(d2):
         d2[-1] = F(1)
-    if kind == "cross":
+    if kind in ("cross", "nearmiss"):
         X = [F(x) for x in case["X"]]
         p1 = [x - F(case["t1"]) * d for x, d in zip(X, d1)]
         p2 = [x - F(case["t2"]) * d for x, d in zip(X, d2)]
+        if kind == "nearmiss":
+            # two lines that would cross, pulled apart by a gap far above the documented tolerance (256 eps) but tiny
+            nrm = _cross3(d1, d2)
+            if any(nrm):
+                p2 = [a + F(case["gap"]) * b for a, b in zip(p2, nrm)]
+            ctx.label("near-miss")
     else:
         p1 = [F(x) for x in case["p1"]]
         p2 = [F(x) for x in case["p2"]]
@@ -248,6 +257,20 @@ def check_voxels(case, ctx):
                   "voxel grid spans [%r, %r] on axis %d, bounding box [%r, %r]" % (min(v[0][i] for v in grid), max(v[1][i] for v in grid), i, bb[0][i], bb[1][i]))
     for p in pts:
         ctx.check(any(all(v[0][i] - 1e-7 <= p[i] <= v[1][i] + 1e-7 for i in range(3)) for v in grid), "sampled-point-outside-grid", "sampled point %r lies in no voxel" % (p,))
+    if case["n"] % 2 == 0:
+        # the same object voxelised again after its control points moved: the grid follows the new bounding box
+        obj.ctrlpts = [[c * 1.5 + 3.0 for c in q] for q in d["P"]]
+        bb2 = obj.bbox
+        pts2 = [list(p) for p in obj.evalpts]
+        grid2, filled2 = voxelize.voxelize(obj, grid_size=tuple(case["grid"]), use_cubes=case["cubes"])
+        ctx.label("voxelised-twice")
+        for i in range(3):
+            ctx.check(min(v[0][i] for v in grid2) <= bb2[0][i] + 1e-9 and max(v[1][i] for v in grid2) >= bb2[1][i] - 1e-9, "voxel-grid-does-not-cover-bbox",
+                      "after moving the control points the voxel grid spans [%r, %r] on axis %d, the bounding box is [%r, %r]" % (
+                          min(v[0][i] for v in grid2), max(v[1][i] for v in grid2), i, bb2[0][i], bb2[1][i]))
+        for p in pts2:
+            ctx.check(any(all(v[0][i] - 1e-7 <= p[i] <= v[1][i] + 1e-7 for i in range(3)) for v in grid2), "sampled-point-outside-grid",
+                      "after moving the control points, sampled point %r lies in no voxel" % (p,))
 
 
 # ------------------------------------------------------------------------------------------------ control point lookup
